@@ -150,8 +150,12 @@ func (n *c07Node) render(b *strings.Builder) {
 			k.render(b)
 		}
 		b.WriteString(")")
-	case "array":
+	case "array", "raw":
 		b.WriteString(n.s)
+	case "flat":
+		for _, k := range n.kids {
+			k.render(b)
+		}
 	}
 }
 
@@ -342,6 +346,10 @@ type c07Case struct {
 	formula       string
 	names         []string // defined names in scope
 	how           string   // "hook" | "InsertRows" ...
+	noOp          bool     // no transcript line (the text is not produced by adjustFormulaRef alone)
+	derived       string   // shared formula child: what getSharedFormula derives from the rewritten master
+	masterGone    bool     // shared formula child whose master cell was removed by the edit
+	note          string   // scenario description put in front of the replay (workbook cases)
 }
 
 func c07NamesField(names []string) string {
@@ -402,7 +410,11 @@ func c07Check(r *Run, c *c07Case, got string, gotErr bool) {
 			rng = append(rng, t)
 		}
 	}
-	replay := c.opLine("s")
+	opl := c.opLine("s")
+	replay := opl
+	if c.note != "" {
+		replay = "# " + c.note + "\n" + replay
+	}
 	// sanity of the generator: efp sees exactly the tree's operand leaves
 	if len(rng) != len(ops) {
 		r.Fail("gen:efp-tree-mismatch", fmt.Sprintf("formula %q: efp yields %d range operands, the tree has %d", c.formula, len(rng), len(ops)), 0, replay)
@@ -441,9 +453,12 @@ func c07Check(r *Run, c *c07Case, got string, gotErr bool) {
 			wantSpec = append(wantSpec, q.tokenValue())
 		}
 	}
-	ln := r.Op(replay, res+" "+c07SpecField(status, wantSpec))
+	ln := 0
+	if !c.noOp {
+		ln = r.Op(opl, res+" "+c07SpecField(status, wantSpec))
+	}
 	nontrivial := status == "" && !gotErr && got != c.formula
-	r.Case(c.how+":"+replay, nontrivial)
+	r.Case(c.how+":"+opl, nontrivial)
 	r.Stat("case:" + c.how)
 	switch {
 	case status == "deleted":
@@ -615,6 +630,12 @@ func c07LooksRef(s string) bool {
 func c07Classify(c *c07Case, got, exp string) string {
 	if c.tree == nil {
 		return "other"
+	}
+	if c.masterGone && got == "" {
+		return "shared-master-removed"
+	}
+	if c.derived != "" && c07SameText(got, c.derived) {
+		return "shared-child-derived-from-master"
 	}
 	if c07SameText(got, c07Requote(mustShift(c)).String()) {
 		return "sheet-prefix-requoted"
@@ -1159,6 +1180,7 @@ func c07Workbook(r *Run, rng *Rng, idx int) {
 			cells = append(cells, cl)
 		}
 	}
+	sp := c07SpecialPlace(r, f, rng, sheets, edited)
 	calc := func(s, cell string) (v string, isErr bool) {
 		defer func() {
 			if p := recover(); p != nil {
@@ -1250,6 +1272,7 @@ func c07Workbook(r *Run, rng *Rng, idx int) {
 		}
 		c07Check(r, c, d.RefersTo, false)
 	}
+	c07SpecialCheck(r, f, sp, edited, e, how, desc)
 }
 
 func c07NameTouched(before map[string]string, edited string, e c07Edit) bool {
@@ -1366,6 +1389,7 @@ func runC07(r *Run, rng *Rng, replay string) {
 	}
 	c07Random(r, f, rng, nRandom)
 	c07MalformedStream(r, f, rng, nMal)
+	c07SharedWitness(r)
 	for i := 0; i < nWb; i++ {
 		t0 := time.Now()
 		c07Workbook(r, rng, i)
